@@ -77,3 +77,14 @@ Theorem C12_translated_rows_stay_together {G} mx (trial parents : pop (G:=G)) : 
   pick (de_mask mx (pf trial) (pf parents)) (rows_of trial) ++ pick (map negb (de_mask mx (pf trial) (pf parents))) (rows_of parents).
 Proof. exact (DE_result_rows mx trial parents). Qed.
 Print Assumptions C12_translated_rows_stay_together.
+
+(* the engines' run(): the population whose best k_elites survive is the one made of the parents the deme handed in (translated data flow of
+   BaseSEA.run — inherited by SEA, SEAWithCrossover, GAStyleSEA — and SEAWithAdaptiveMutation.run) *)
+Theorem C12_translated_BaseSEA_run {G} (gdef : G) mx k_elites pipeline (parents : pop (G:=G)) o1 o2 : aligned parents -> aligned (pipeline parents) ->
+  pf (gen_BaseSEA_run gdef mx k_elites pipeline parents o1 o2) = sea_select mx k_elites (pf parents) (pf (pipeline parents)) o1 o2.
+Proof. exact (BaseSEA_run_fits gdef mx k_elites pipeline parents o1 o2). Qed.
+Print Assumptions C12_translated_BaseSEA_run.
+Theorem C12_translated_SEAWithAdaptiveMutation_run {G} (gdef : G) mx k_elites pipeline (parents : pop (G:=G)) o1 o2 : aligned parents -> aligned (pipeline parents) ->
+  pf (gen_SEAWithAdaptiveMutation_run gdef mx k_elites pipeline parents o1 o2) = sea_select mx k_elites (pf parents) (pf (pipeline parents)) o1 o2.
+Proof. exact (SEAWithAdaptiveMutation_run_fits gdef mx k_elites pipeline parents o1 o2). Qed.
+Print Assumptions C12_translated_SEAWithAdaptiveMutation_run.
